@@ -10,6 +10,10 @@ def run(ctx):
                         "thread-local legacy settings are observed through Settings::from_string(\"{}\") (an empty overlay returns the thread's current values)"]
     r = tlc_expect_ok(tlc("ContextIsolation", "MC_ContextIsolation.cfg" if ctx.quick else "MC_ContextIsolation_thorough.cfg", name="mc_ctxiso", workers=8, timeout=1500), "MC ContextIsolation")
     ctx.add_tlc(r)
+    if not ctx.quick:
+        # unbounded: TLAPS proves an inductive invariant implying Isolation / CancelWins / AtMostOneCallbackAfterCancel
+        nob = tlapm_prove("ContextIsolation_proofs", ["ContextIsolation"], threads=12)
+        ctx.assumptions.append("thorough tier: tlapm discharged %d proof obligations of ContextIsolation_proofs (inductive invariant implying Isolation, CancelWins, AtMostOneCallbackAfterCancel, LateStartNoSecondCallback for any number of threads, contexts and checkpoints)" % nob)
     cov = r.coverage()
     for a in ("Start", "Callback", "FlagRead", "Finish", "Cancel", "LegacySet"):
         if cov.get(a, (0, 0))[1] == 0:
